@@ -5,6 +5,7 @@
   system as it is THEN.
 -/
 import WD.Model.Pipeline
+import WD.Spec.PipelineSpec
 namespace WD.Pipe
 
 /-- the kernel side of a burst -/
@@ -75,10 +76,19 @@ def createdOf (evs : List PEv) : List (P × Bool) :=
 def allGrowB (s : Sys) (ops : List Op) : Bool :=
   (ops.foldl (fun (acc : FS × Bool) op => ((kernelOp acc.1 s.k op).1, acc.2 && validOp acc.1 op && growKind op)) (s.fs, true)).2
 
+/-- "created and immediately renamed": `mkdir p; rename p q`, both parents directories of the tree, `q` a free name -/
+def mkRenameB (s : Sys) (b : List Op) : Bool :=
+  match b with
+  | [.mkdir p, .rename p' q] =>
+    p == p' && validOp s.fs (.mkdir p) && decide (2 ≤ q.length) && !s.fs.exists q && (p != q) && s.fs.isDir (parentOf q) &&
+      watchedDir s.fs true (parentOf p) && watchedDir s.fs true (parentOf q)
+  | _ => false
+
 /-- executable twin of `okBurst` / `pacedOK` (hypothesis of `paced_run`): every burst is a burst of file operations, a
-    nested creation burst, or one valid operation other than the removal of the root -/
+    nested creation burst, a directory created and immediately renamed, or one valid operation other than the removal of
+    the root -/
 def okBurstB (s : Sys) (b : List Op) : Bool :=
-  allFileB s b || allGrowB s b ||
+  allFileB s b || allGrowB s b || mkRenameB s b ||
     (match b with
      | [op] => validOp s.fs op && (op != .rmdir ["W"])
      | _ => false)
